@@ -512,6 +512,18 @@ func (fr *frame) visit(instr ssa.Instruction) continuation {
 	case *ssa.FieldAddr:
 		x := fr.get(instr.X)
 		if h, isHost := x.(host); isHost {
+			// field of a world struct reached through a pointer: only exported plain fields
+			if rv := reflect.ValueOf(h.v); rv.Kind() == reflect.Ptr && !rv.IsNil() && rv.Elem().Kind() == reflect.Struct {
+				stt := instr.X.Type().Underlying().(*types.Pointer).Elem().Underlying().(*types.Struct)
+				if !stt.Field(instr.Field).Embedded() && stt.Field(instr.Field).Exported() {
+					c := new(value)
+					*c = p.fromHost(rv.Elem().Field(instr.Field))
+					fr.env[instr] = c // a read-only copy of the field (world objects are immutable here)
+					break
+				}
+			}
+		}
+		if h, isHost := x.(host); isHost {
 			// promoted method call through an embedded struct of a world object (c.object.Exported()):
 			// keep the outer object as receiver, reflection resolves the promotion.
 			st := instr.X.Type().Underlying().(*types.Pointer).Elem().Underlying().(*types.Struct)
@@ -530,6 +542,14 @@ func (fr *frame) visit(instr ssa.Instruction) continuation {
 		if ptr == nil {
 			p.runtimePanic("nil pointer dereference", fr.pos(instr))
 		}
+		if h, isHost := (*ptr).(host); isHost && h.v != nil {
+			if rv := reflect.ValueOf(h.v); rv.Kind() == reflect.Struct {
+				c := new(value)
+				*c = p.fromHost(rv.Field(instr.Field)) // read-only view of a world struct value held in a variable
+				fr.env[instr] = c
+				break
+			}
+		}
 		st, ok := (*ptr).(structure)
 		if !ok {
 			p.unsupported(fmt.Sprintf("FieldAddr: cell holds %T at %s", *ptr, fr.pos(instr)))
@@ -537,6 +557,12 @@ func (fr *frame) visit(instr ssa.Instruction) continuation {
 		fr.env[instr] = &st[instr.Field]
 	case *ssa.Field:
 		x := fr.get(instr.X)
+		if h, isHost := x.(host); isHost && h.v != nil {
+			if rv := reflect.ValueOf(h.v); rv.Kind() == reflect.Struct {
+				fr.env[instr] = p.fromHost(rv.Field(instr.Field)) // field of a world struct value (types.TypeAndValue ...)
+				break
+			}
+		}
 		st, ok := x.(structure)
 		if !ok {
 			p.unsupported(fmt.Sprintf("Field on %T", x))
